@@ -47,7 +47,8 @@ class C15(Prop):
     exhaustive_space = True     # the quick tier enumerates its whole finite space
     rule = ("EXHAUSTIVE over the alphabet {/, a, b}: namespaces of length <= 4 x keys of length <= 5 (well-formed and "
             "ill-formed) through absolute_name and relative_name, follow-up calls on the absolute names, Client namespace "
-            "normalisation and the namespace closure; thorough adds random longer strings over a wider alphabet; "
+            "normalisation and the namespace closure (incremental and after a cache rebuild, also for every key of <= 4 "
+            "components over {a, b, ab}); thorough adds random longer strings over a wider alphabet; "
             "non-trivial = a (namespace, key) pair that is well-formed and whose key is relative with >= 1 separator or "
             "absolute inside/outside the namespace")
     assumptions = ["names contain no '.' (nested-attribute separator) in this family; dotted names are covered by C06"]
@@ -67,7 +68,9 @@ class C15(Prop):
                     ops.append("rel %s %s" % (tok(ns), a))
                     ops.append("abs %s %s" % (tok(norm(ns)), tok(k)))
             scns.append(Scenario("name", "C15_x_%d" % i, [], ops, {"ns": ns}))
+        deep = ["/" + "/".join(c) for n in range(1, 5) for c in itertools.product(["a", "b", "ab"], repeat=n)]
         ks = ["closure " + tok(k) for k in keys if k.startswith("/")]
+        ks += ["closure " + k for k in deep] + ["rebuild " + k for k in deep]      # keys nested up to four levels
         ks += ["rebuild " + tok(k) for k in keys if k.startswith("/") and "//" not in k and not k.endswith("/")
                and k != "/zz"]
         scns.append(Scenario("name", "C15_closure", [], ks, {}))
